@@ -191,7 +191,7 @@ CHECKS["C20"] = {
              "or descends structurally into a capped document, and the caps fit the interpreter stack; explicit raises and data-dependent library calls "
              "(int/float/re.compile/json/yaml/index) propagated over the call graph leave the four reader entry points only as LexerError/ParserError and "
              "leave no tool execute(); META values are type-guarded before str-only operations; every content[i] in the lexer is bounds-guarded on every "
-             "path; the per-token loop does no work proportional to the whole input."),
+             "path; per-token text tables join only strings; the per-token loop does no work proportional to the whole input."),
     "note": ("Wall-clock scaling is not measured and JSON-serialisability of every envelope value is not decided. IndexError/KeyError/AttributeError/TypeError "
              "from ordinary subscripts and attribute access are modelled only by R20.5c (META values) and R20.8 (scanner indexes); other implicit exceptions "
              "inside the tools' unprotected stages are outside the analysis. Polynomial (non-exponential) regex backtracking is not analysed. Four escape origins "
@@ -206,7 +206,7 @@ CHECKS["C07"] = {
              "(the multi-line-token formula is evaluated symbolically on text = A + newline + T); in Parser each of the 11 word-list joins is receipted by a "
              "multi_word_coalesce warning on every path that joined more than one word; both octave_write mappers turn each normalization / lenient_parse record "
              "into exactly one correction, filter on type only and produce none for spec_violation findings; both tools pass the reader's complete receipt list "
-             "into repairs / corrections, in strict and lenient mode."),
+             "into repairs / corrections, in strict and lenient mode; the lenient pre-pass rewrites (and receipts) only matches outside every protected range."),
     "note": ("The multiset equality between injected rewrites and receipts on concrete documents (exact original text, line, column per occurrence) is not decided, nor "
              "that canonical text triggers no lenient_parse warning of other subtypes. Splitting a run of annotated words (NEVER<X> ALWAYS<Y>) into a list emits no "
              "receipt and is pinned by the repository's own test; it is outside R07.2, which covers joins. Unknown expressions in the line/column update make the check "
@@ -220,7 +220,7 @@ CHECKS["C01"] = {
              "one recorded known finding: A<> / NEVER<A,B>); scanned identifiers become exactly IDENTIFIER tokens; text rebuilt from tokens and written verbatim "
              "(Section.annotation, HolographicValue.raw_pattern) spells STRING tokens through the emitter's own escape chain; emit() writes the document parts in the "
              "order parse_document consumes them; children are emitted at indent + 1 with two spaces per level and emit_meta's literal prefixes match the depth it "
-             "lays values out for; number conversions cannot leave the NUMBER language; the trailing comment of an assignment follows the complete value text."),
+             "lays values out for; number conversions cannot leave the NUMBER language; the trailing comment of an assignment follows the complete value text; names written verbatim (Section.key / section_id) are never taken from a STRING token."),
     "note": ("emit(parse(emit(parse(x)))) == emit(parse(x)) itself is not decided: list-layout stability (_needs_multiline vs parse_list), indentation re-reading through "
              "INDENT tokens / implicit dedent and comment placement other than the assignment trailing comment depend on the hand-written parser's control state on "
              "runtime token streams. The alphabet is symbolic (ASCII + literal non-ASCII + one representative per Unicode category)."),
@@ -233,7 +233,7 @@ CHECKS["C02"] = {
              "the current token is known to be a COMMENT the parser stores its text before moving on (six deliberate discard sites are recorded known findings); parse_value "
              "has a branch for every member of VALUE_TOKENS; decode(encode(s)) == s for all strings up to length 5 over the escape alphabet, for chains written as .replace() "
              "chains or table-driven loops; the block-children and section-children loops agree on resetting the line-indent tracker after a child; the lenient pre-pass "
-             "protects literal zones, strings and comments with a full lookup."),
+             "protects literal zones, strings and comments with a full lookup; bare strings read back as the same string (automata, one known finding shared with C01); no text on its way to the lexer passes a whole-text transformer and the core pipeline splits lines on \\n only; structural tokens are never consumed as a value."),
     "note": ("Equality of the parsed content with an independent statement of what was written is not decided: parentage by indentation on concrete layouts, duplicate-key "
              "order and value equality need values. R02.6 is a sibling-agreement rule on the repository's own idiom (current_line_indent reset); a consistent redesign of both "
              "loops is silent, a one-sided change fires."),
@@ -244,7 +244,7 @@ CHECKS["C05"] = {
              "tier) is a verbatim use; no store to those fields and LiteralZoneValue is built only by Parser.parse_literal_zone; every value dispatcher that converts values has "
              "a zone branch; inside an open fence the normaliser appends the raw line, unicodedata.normalize has no other caller and the tab rejection consults every fence span; "
              "the octave_write pre-pass uses the lexer's FENCE_PATTERN, closes a zone only on a fence of the opening length and scans all protected ranges; the emitter's three "
-             "zone layouts agree (content appended unchanged exactly when non-empty). One recorded known finding: FormatOptions post-processing is not fence-aware (Python API only)."),
+             "zone layouts agree (content appended unchanged exactly when non-empty); the helpers that rewrite octave_write's input before parsing apply no dedent/normalize/re.sub/expandtabs/splitlines to it. One recorded known finding: FormatOptions post-processing is not fence-aware (Python API only)."),
     "note": ("Byte equality of zone content through a whole pipeline is not decided, nor the collapse of a zone holding exactly one empty line into an empty zone (a value-level "
              "fact of the token representation). Receiver typing is by isinstance test / annotation / construction inside the same function; reads on untyped receivers named "
              "content elsewhere in the package are out of scope."),
@@ -257,7 +257,7 @@ CHECKS["C03"] = {
              "checked to be the only stolen string); no emitter function reads .line/.column/.tokens or tokens; none of the emitter's output fragments contains a tab, a space next "
              "to '::', or an ASCII operator alias, the envelope lines and the final newline are unconditional; indentation is two spaces per level, including level-parameterised "
              "META emitters; at every INDENT test that opens a child region the current token cannot be a NEWLINE (blank lines after headers are skipped by a loop); "
-             "L(===NAME===[ ]*) and L([ ]*KEY::) are included in octave_write's lenient structure detectors; parse_document never requires the envelope."),
+             "L(===NAME===[ ]*) and L([ ]*KEY::) are included in octave_write's lenient structure detectors; parse_document never requires the envelope; every parser token set that contains ENVELOPE_END also contains EOF; indentation widths are never compared with 1-based token columns."),
     "note": ("That two concrete spellings of one document yield identical canonical bytes is not decided: it rests on how the hand-written parser groups runtime token streams "
              "(spaces around ::, optional quotes, one-line vs multi-line lists). R03.1 evaluates the extracted regex constants with the stdlib re module, not repository code."),
 }
